@@ -314,3 +314,96 @@ Theorem C02_pretext_order_pairs : forall g prefix bpt input pretext rs fused l1 
     /\ (exists q1 q2 q3, Proofs.CoreKept.baits_of pretext = q1 ++ o_bait r1 :: q2 ++ o_bait r2 :: q3).
 Proof. exact Proofs.PretextOrder.pretext_order_pairs. Qed.
 Print Assumptions C02_pretext_order_pairs.
+
+(* ========================================================================
+   THE CAPSTONE: ONE statement about the FINAL output of [remap] -- the
+   renamed, sorted assemblies that are written -- for every untagged map that
+   tiles the scaffolds it shows (the hypotheses of C02_completion; pieces in
+   any order / orientation / grouping, any texel size >= 1 bp, scaffolds absent
+   at will): the WHOLE pipeline completes (remapping, fusion, naming, sorting,
+   statistics), and every piece with a contig base in its core has a result
+   satisfying the C18 invariant against its source scaffold (one contiguous
+   collinear run, the input's internal gaps) and core_kept (every contig base
+   >= 3 error lengths inside the piece), whose rows -- reversed and
+   complemented exactly when the piece is on the minus strand
+   (to_scaffold_rows) -- sit as ONE contiguous block in a scaffold of an output
+   assembly.  Composes C02_completion, C02_core_kept, C09_routing_end_to_end
+   and the totality of the rest of the pipeline (Proofs/EndToEndC02Total.v).
+   One hypothesis was FORCED BY THE PROOF: input contigs on strand +1 or -1
+   (an unstranded input contig makes make_stats raise; refuted below). *)
+From Tola Require Proofs.EndToEndC02.
+Theorem C02_end_to_end : forall g prefix n d input pretext,
+  0 < d -> d <= n ->
+  Forall Proofs.Completion.input_ok input ->
+  NoDup (map fst input) ->
+  NoDup (map key_of (Model.RemapSpec.in_frags input)) ->
+  Forall (fun f => f_tags f = []) (Model.RemapSpec.in_frags input) ->
+  Forall (fun f => f_strand f = 1 \/ f_strand f = -1) (Model.RemapSpec.in_frags input) ->
+  Forall (fun p => exists b t, snd p = RF b :: t) pretext ->
+  Forall (fun b => f_tags b = [] /\ (f_strand b = 1 \/ f_strand b = -1)
+                   /\ In (f_name b) (map fst input)) (Proofs.CoreKept.baits_of pretext) ->
+  Forall (Proofs.Completion.scaffold_tiled n d (Proofs.CoreKept.baits_of pretext)) input ->
+  exists rs o,
+    remap_to_input repaired g prefix (n, d) input pretext = Ok rs
+    /\ remap repaired g prefix (n, d) input pretext = Ok o
+    /\ let err := error_length (n, d) in
+       forall bait src x,
+         In bait (Proofs.CoreKept.baits_of pretext) ->
+         In (f_name bait, src) (number_input input 0) ->
+         Proofs.CoreKept.in_core err bait x -> Proofs.CoreKept.contig_base src x ->
+         exists r a sc pre suf,
+           In r (b_store (rs_b rs)) /\ o_bait r = bait
+           /\ Model.OvrSpec.Inv src r /\ Proofs.CoreKept.core_kept err src r
+           /\ In a (out_asms o) /\ In sc (oa_scaffolds a)
+           /\ sc_rows sc = pre ++ to_scaffold_rows r ++ suf.
+Proof. exact Proofs.EndToEndC02.c02_end_to_end. Qed.
+Print Assumptions C02_end_to_end.
+
+(* ... and the Pretext-order clause on the final output: two pieces of ONE
+   Pretext scaffold, the first before the second in its rows, both with a
+   contig base in their cores, lie in the SAME output scaffold in that order *)
+Theorem C02_end_to_end_order : forall g prefix n d input pretext,
+  0 < d -> d <= n ->
+  Forall Proofs.Completion.input_ok input ->
+  NoDup (map fst input) ->
+  NoDup (map key_of (Model.RemapSpec.in_frags input)) ->
+  Forall (fun f => f_tags f = []) (Model.RemapSpec.in_frags input) ->
+  Forall (fun f => f_strand f = 1 \/ f_strand f = -1) (Model.RemapSpec.in_frags input) ->
+  Forall (fun p => exists b t, snd p = RF b :: t) pretext ->
+  Forall (fun b => f_tags b = [] /\ (f_strand b = 1 \/ f_strand b = -1)
+                   /\ In (f_name b) (map fst input)) (Proofs.CoreKept.baits_of pretext) ->
+  Forall (Proofs.Completion.scaffold_tiled n d (Proofs.CoreKept.baits_of pretext)) input ->
+  exists rs o,
+    remap_to_input repaired g prefix (n, d) input pretext = Ok rs
+    /\ remap repaired g prefix (n, d) input pretext = Ok o
+    /\ let err := error_length (n, d) in
+       forall pname prows l1 b1 l2 b2 l3 src1 x1 src2 x2,
+         In (pname, prows) pretext ->
+         frags_of prows = l1 ++ b1 :: l2 ++ b2 :: l3 ->
+         In (f_name b1, src1) (number_input input 0) ->
+         Proofs.CoreKept.in_core err b1 x1 -> Proofs.CoreKept.contig_base src1 x1 ->
+         In (f_name b2, src2) (number_input input 0) ->
+         Proofs.CoreKept.in_core err b2 x2 -> Proofs.CoreKept.contig_base src2 x2 ->
+         exists r1 r2 a sc pre mid post,
+           In r1 (b_store (rs_b rs)) /\ o_bait r1 = b1
+           /\ Model.OvrSpec.Inv src1 r1 /\ Proofs.CoreKept.core_kept err src1 r1
+           /\ In r2 (b_store (rs_b rs)) /\ o_bait r2 = b2
+           /\ Model.OvrSpec.Inv src2 r2 /\ Proofs.CoreKept.core_kept err src2 r2
+           /\ In a (out_asms o) /\ In sc (oa_scaffolds a)
+           /\ sc_rows sc = pre ++ to_scaffold_rows r1 ++ mid ++ to_scaffold_rows r2 ++ post.
+Proof. exact Proofs.EndToEndC02.c02_end_to_end_order. Qed.
+Print Assumptions C02_end_to_end_order.
+
+(* without "input contigs stranded" the capstone is false: scaffold [cA(strand 0);
+   gap; cB(+)] shown whole -- remap_to_input completes, make_stats raises
+   ValueError in junction_tuple on the INPUT assembly (DESIGN 13.5) *)
+Theorem C02_end_to_end_needs_stranded_input : ~ Proofs.EndToEndC02.c02_end_to_end_original.
+Proof. exact Proofs.EndToEndC02.c02_end_to_end_original_refuted. Qed.
+Print Assumptions C02_end_to_end_needs_stranded_input.
+
+(* non-vacuity: the three-piece map of C02_completion_instance run through the capstone *)
+Theorem C02_end_to_end_instance :
+  exists o, remap repaired Proofs.Completion.ThreePieces.g10 (s "SUPER_") (7, 2)
+              Proofs.Completion.ThreePieces.input Proofs.Completion.ThreePieces.pretext = Ok o.
+Proof. exact Proofs.EndToEndC02.c02_end_to_end_instance. Qed.
+Print Assumptions C02_end_to_end_instance.
